@@ -151,7 +151,7 @@ type sreaderWT struct{ *sreader }
 func (r sreaderWT) WriteTo(w io.Writer) (int64, error) {
 	r.e.writeToUsed = true
 	var total int64
-	buf := make([]byte, 7)
+	buf := make([]byte, 7+len(r.data)/6) // small sources: 7-byte rounds; large ones: a handful of rounds
 	for {
 		n, err := r.Read(buf)
 		if n > 0 {
@@ -174,6 +174,7 @@ type swriter struct {
 	e     *env
 	buf   []byte
 	errAt int
+	round int // size of the rounds of ReadFrom
 }
 
 func (w *swriter) put(p []byte) (int, error) {
@@ -197,7 +198,7 @@ type swriterRF struct{ *swriter }
 
 func (w swriterRF) ReadFrom(r io.Reader) (int64, error) {
 	var total int64
-	buf := make([]byte, 5)
+	buf := make([]byte, 5+w.round)
 	for {
 		n, err := r.Read(buf)
 		if n > 0 {
@@ -236,7 +237,7 @@ func (c hcase) reader(e *env) io.Reader {
 }
 
 func (c hcase) writer(e *env) (io.Writer, *swriter) {
-	w := &swriter{e: e, errAt: c.WErrAt}
+	w := &swriter{e: e, errAt: c.WErrAt, round: c.L / 5}
 	if c.ReaderFrom {
 		return swriterRF{w}, w
 	}
@@ -315,7 +316,7 @@ func runHelper(c hcase) (res hresult) {
 		}
 		res.out = sw.buf
 	case "CtxReaderFrom":
-		sw := &swriter{e: e, errAt: c.WErrAt}
+		sw := &swriter{e: e, errAt: c.WErrAt, round: c.L / 5}
 		rf := safeio.NewContextualReaderFrom(e.ctx, swriterRF{sw})
 		res.n, res.err = rf.ReadFrom(c.reader(e))
 		res.out = sw.buf
@@ -580,17 +581,9 @@ type readerVariant struct {
 	ErrWithData, ErrEOFKind, EOFWData bool
 }
 
-func readerVariants(L int, small bool) []readerVariant {
+func readerVariants(L int) []readerVariant {
 	out := []readerVariant{{ErrAt: -1}, {ErrAt: -1, EOFWData: true}}
-	var ks []int
-	if small {
-		for k := 0; k <= 8 && k <= L; k++ {
-			ks = append(ks, k)
-		}
-	} else {
-		ks = []int{0, 8, L - 1, L}
-	}
-	for _, k := range ks {
+	for k := 0; k <= 8 && k <= L; k++ {
 		for _, wd := range []bool{false, true} {
 			if wd && k == 0 {
 				continue // no data to return the error with
@@ -610,10 +603,18 @@ type helperJob struct {
 	Small bool // family A (full product of scripts) or family B (boundary lengths, reduced scripts)
 }
 
-func helperJobs(thorough bool) []helperJob {
-	smallMax := 10
+func smallMaxLen(thorough bool) int {
 	if thorough {
-		smallMax = 40
+		return 40
+	}
+	return 8
+}
+
+func helperJobs(thorough bool) []helperJob {
+	smallMax := smallMaxLen(thorough)
+	big := []int{511, 512, 513, 32767, 32768, 32769, 1 << 20}
+	if thorough {
+		big = append(big, 1<<20-1, 1<<20+1)
 	}
 	var jobs []helperJob
 	fns := []string{"ReadAtMost", "ReadAll", "CopyData", "CopyN", "WriteString", "CtxReader", "CtxWriter", "CtxReaderFrom"}
@@ -621,7 +622,7 @@ func helperJobs(thorough bool) []helperJob {
 		for l := 0; l <= smallMax; l++ {
 			jobs = append(jobs, helperJob{fn, l, true})
 		}
-		for _, l := range []int{511, 512, 513, 32767, 32768, 32769, 1<<20 - 1, 1 << 20, 1<<20 + 1} {
+		for _, l := range big {
 			jobs = append(jobs, helperJob{fn, l, false})
 		}
 	}
@@ -630,74 +631,95 @@ func helperJobs(thorough bool) []helperJob {
 
 var (
 	scripts4      = chunkScripts(4)
-	scriptsSmall  = chunkScripts(2)
+	scripts2      = chunkScripts(2)
+	scripts1      = chunkScripts(1)
 	scriptsBigSet = [][]int{{}, {0}, {1}, {0, 1, 2}, {2, restChunk}, {1, 1, 1, 1}, {0, 0, 0, 0}}
 )
 
-// forEachBase calls f for every base case (context never ended) of a job.
-func forEachBase(j helperJob, thorough bool, f func(hcase)) {
-	scripts := scripts4
-	if !j.Small {
-		scripts = scriptsBigSet
-	}
+type writerVariant struct {
+	errAt int
+	rf    bool
+}
+
+// family is a sub-product of the alphabet. The dimensions (chunk script, reader failure, writer behaviour) are
+// crossed fully with max/n, capacity, WriterTo and every cancellation instant, and pairwise-fully with each other:
+//   A1: every script of <= 4 chunks  x  healthy readers (EOF alone / EOF with the last data)  x  healthy writers
+//   A2: every reader failure (byte k <= 8; alone / with data; custom / unexpected EOF)  x  scripts of <= 2 chunks  x  healthy writers
+//   A3: every failing writer  x  scripts of <= 1 chunk  x  {healthy reader, reader failing at byte 2}
+//   B (boundary lengths 511..2^20+1): 7 scripts x 4 reader behaviours x 3 writer behaviours
+type family struct {
+	scripts [][]int
+	rvs     []readerVariant
+	wvs     []writerVariant
+}
+
+func families(j helperJob) []family {
 	usesReader := j.Fn != "WriteString" && j.Fn != "CtxWriter"
 	usesWriter := j.Fn == "CopyData" || j.Fn == "CopyN" || j.Fn == "WriteString" || j.Fn == "CtxWriter" || j.Fn == "CtxReaderFrom"
+	healthyW := []writerVariant{{-1, false}, {-1, true}}
+	failingW := []writerVariant{{0, false}, {1, false}, {3, false}, {1, true}, {3, true}}
+	if j.Fn == "CtxReaderFrom" {
+		healthyW = []writerVariant{{-1, true}}
+		failingW = []writerVariant{{1, true}, {3, true}}
+	}
+	if !usesWriter {
+		healthyW, failingW = []writerVariant{{-1, false}}, nil
+	}
+	if !usesReader {
+		return []family{{scripts: [][]int{{}}, rvs: []readerVariant{{ErrAt: -1}}, wvs: append(healthyW, failingW...)}}
+	}
+	if !j.Small {
+		L := j.L
+		f := family{scripts: scriptsBigSet, wvs: healthyW,
+			rvs: []readerVariant{{ErrAt: -1}, {ErrAt: -1, EOFWData: true}, {ErrAt: 8}, {ErrAt: L - 1, ErrWithData: true, ErrEOFKind: true}}}
+		if usesWriter {
+			f.wvs = append(f.wvs, failingW[len(failingW)-1])
+		}
+		return []family{f}
+	}
+	all := readerVariants(j.L)
+	fams := []family{
+		{scripts: scripts4, rvs: all[:2], wvs: healthyW},
+		{scripts: scripts2, rvs: all[2:], wvs: healthyW},
+	}
+	if usesWriter {
+		fams = append(fams, family{scripts: scripts1, rvs: []readerVariant{{ErrAt: -1}, {ErrAt: 2}}, wvs: failingW})
+	}
+	return fams
+}
+
+// forEachBase calls f for every base case (context never ended) of a job.
+func forEachBase(j helperJob, f func(hcase)) {
 	maxes := []int64{0}
 	if j.Fn == "ReadAtMost" || j.Fn == "CopyN" {
 		maxes = maxSet(j.L)
 	}
 	caps := []int64{0}
 	if j.Fn == "ReadAtMost" {
-		caps = []int64{-1, 0, 16}
+		caps = []int64{-1, 16}
 	}
-	type wv struct {
-		errAt int
-		rf    bool
+	wts := []bool{false, true}
+	if j.Fn == "WriteString" || j.Fn == "CtxWriter" {
+		wts = []bool{false}
 	}
-	wvs := []wv{{-1, false}}
-	if usesWriter {
-		wvs = []wv{{-1, false}, {-1, true}, {0, false}, {1, false}, {3, false}, {1, true}, {3, true}}
-		if j.Fn == "CopyN" && j.Small && !thorough {
-			// quick tier: the product with 9 values of n is the largest; the writer alphabet is reduced there
-			wvs = []wv{{-1, false}, {-1, true}, {1, false}, {3, true}}
-		}
-		if j.Fn == "CtxReaderFrom" {
-			wvs = []wv{{-1, true}, {1, true}, {3, true}}
-		}
-		if j.Fn == "WriteString" || j.Fn == "CtxWriter" {
-			wvs = []wv{{-1, false}, {-1, true}, {0, false}, {1, false}, {3, false}}
-		}
-	}
-	rvs := []readerVariant{{ErrAt: -1}}
-	wts := []bool{false}
-	if usesReader {
-		rvs = readerVariants(j.L, j.Small)
-		wts = []bool{false, true}
-	} else {
-		scripts = [][]int{{}}
-	}
-	// CopyN over the full script set is the costliest family: scripts of <= 4 chunks only for n in {L-1, L, L+1},
-	// the other values of n use scripts of <= 2 chunks (the script only matters while bytes remain to be copied).
 	for _, m := range maxes {
 		for _, cp := range caps {
 			if cp < 0 && m >= 1<<31 && m < 1<<48 {
-				// bufferCapacity defaults to max: 2 GiB would really be allocated per call; that value is exercised
-				// once, serially, in TestC09 (thorough); here the explicit capacities cover it.
+				// bufferCapacity defaults to max: 2 GiB would really be reserved per call; that value is exercised
+				// once, serially, in TestC09 (thorough); here the explicit capacity covers it.
 				continue
 			}
-			sc := scripts
-			if j.Small && j.Fn == "CopyN" && !(m >= int64(j.L)-1 && m <= int64(j.L)+1) {
-				sc = scriptsSmall
-			}
-			if j.Small && j.Fn == "ReadAtMost" && cp != -1 && !(m >= int64(j.L)-1 && m <= int64(j.L)+1) {
-				sc = scriptsSmall
-			}
-			for _, s := range sc {
-				for _, rv := range rvs {
-					for _, wt := range wts {
-						for _, w := range wvs {
-							f(hcase{Fn: j.Fn, L: j.L, Max: m, Cap: cp, Chunks: s, ErrAt: rv.ErrAt, ErrWithData: rv.ErrWithData,
-								ErrEOFKind: rv.ErrEOFKind, EOFWithData: rv.EOFWData, WriterTo: wt, WErrAt: w.errAt, ReaderFrom: w.rf, Flavour: flCancel})
+			for _, fam := range families(j) {
+				for _, s := range fam.scripts {
+					for _, rv := range fam.rvs {
+						if rv.ErrAt > j.L {
+							continue
+						}
+						for _, wt := range wts {
+							for _, w := range fam.wvs {
+								f(hcase{Fn: j.Fn, L: j.L, Max: m, Cap: cp, Chunks: s, ErrAt: rv.ErrAt, ErrWithData: rv.ErrWithData,
+									ErrEOFKind: rv.ErrEOFKind, EOFWithData: rv.EOFWData, WriterTo: wt, WErrAt: w.errAt, ReaderFrom: w.rf, Flavour: flCancel})
+							}
 						}
 					}
 				}
@@ -732,7 +754,7 @@ func runHelperJob(j helperJob, thorough bool, viol violationSink) helperStats {
 		}
 		return r
 	}
-	forEachBase(j, thorough, func(c hcase) {
+	forEachBase(j, func(c hcase) {
 		st.baseCases++
 		base := eval(c)
 		T := base.e.calls
@@ -743,8 +765,8 @@ func runHelperJob(j helperJob, thorough bool, viol violationSink) helperStats {
 			c.Flavour = fl
 			c.Cancel = -1
 			eval(c)
-			if base.panicked != "" {
-				continue
+			if base.panicked != "" || (!j.Small && fl == flDeadline) {
+				continue // boundary lengths: the mid-run instants in the cancel flavour only
 			}
 			for k := 1; k <= T; k++ {
 				c.Cancel = k
